@@ -514,6 +514,35 @@ fn limited_dearmor_options(ctx: &mut Ctx) {
     }
 }
 
+/// secret keys whose parameters parse but do not fit together (RSA with p = q: no inverse of p modulo
+/// q): whatever is accepted can be written, measured and used without a panic
+fn inconsistent_secret_keys(ctx: &mut Ctx, ring: &Ring) {
+    let site = "SignedSecretKey::from_bytes -> to_bytes / write_len / to_armored_string / sign (parameters that do not fit together)";
+    // (v4 RSA secret key, usage 0, n = p*p, e = 65537, d = e^-1 mod (p-1), q = p, u = 1)
+    let pq = "c5c099040000000101040082c35cc563f31eee207afd77dcd0c5eb6861c0159e0e55810ad33dde2e010e2e3a364ed36fa70e19e6ba8200308bf3f21cddfbe5c2c57941b0317e1e60154ac9e68b9eb6f459c5d30e5df209bbbbd9af48228673ba7ea4604ebf8b8b6ac9b9bd07ff7b872f36bf1452393ae8fece06d22cdb4ba4d41eb5bb7491eae4d94c34b100110100010001fc0e6d80fc8f81de082645337be96fd39a3219a71a35b7aba594c0e20bfff57039046b5409042d559b80ee0a6639bdcdc7493129734438527287000a7466d52a810200b6f675cc81e74ef5e8e25d940ed904759531985d5d9dc9f81818e811892f902bd23f0824128b2f330c5c7fd0a6a3a4506513270e269e0d37f2a74de452e6b4390200b6f675cc81e74ef5e8e25d940ed904759531985d5d9dc9f81818e811892f902bd23f0824128b2f330c5c7fd0a6a3a4506513270e269e0d37f2a74de452e6b43900010157bc";
+    let Ok(data) = hex::decode(pq) else { return };
+    let t = Instant::now();
+    let r = guard(|| super::child::exercise_all(&data, ring).len());
+    no_panic(ctx, site, &format!("RSA secret key with p = q, data={pq}"), &r, t);
+    let t = Instant::now();
+    let r = guard(|| {
+        use pgp::composed::{Deserializable, SignedSecretKey};
+        let mut n = 0usize;
+        if let Ok(k) = SignedSecretKey::from_bytes(&data[..]) {
+            n += k.write_len();
+            n += k.to_bytes().map(|b| b.len()).unwrap_or(0);
+            n += k.to_armored_string(Default::default()).map(|b| b.len()).unwrap_or(0);
+        }
+        for p in PacketParser::new(&data[..]).flatten() {
+            n += p.write_len();
+            n += p.to_bytes().map(|b| b.len()).unwrap_or(0);
+        }
+        n
+    });
+    no_panic(ctx, site, &format!("RSA secret key with p = q (serialise), data={pq}"), &r, t);
+    ctx.stat("inconsistent_secret_keys");
+}
+
 /// multi-octet fields placed across the 8 KiB refill boundary of the packet body reader, in packets
 /// whose declared length ends inside such a field, and the same inputs delivered through readers that
 /// hand out 1..7 octets per `fill_buf`: every `read_be_*` / `read_arr` / `take_bytes` of the parsers
@@ -789,6 +818,7 @@ pub fn run(ctx: &mut Ctx, ring: &Ring) {
     consume_after_failed_fill_buf(ctx);
     sources_failing_with_unexpected_eof(ctx, ring);
     limited_dearmor_options(ctx);
+    inconsistent_secret_keys(ctx, ring);
     tiny_and_octet_sweeps(ctx);
     boundary_straddles(ctx, ring);
     read_after_error(ctx);
